@@ -33,3 +33,36 @@ pub fn advance_virtual_now(d: u64) -> u64 {
 pub fn clear_virtual_now() {
     VIRTUAL_CLOCK_ON.store(false, Ordering::SeqCst);
 }
+
+/// Kind of an intercepted wait: plain timed wait, read readiness, write readiness.
+#[derive(Debug, Copy, Clone, Eq, PartialEq)]
+pub enum WaitKind {
+    /// `EventLoops::wait_event`
+    Event,
+    /// `EventLoops::wait_read_event`
+    Read,
+    /// `EventLoops::wait_write_event`
+    Write,
+}
+
+/// Signature of a wait interceptor.
+pub type WaitHook =
+    fn(kind: WaitKind, fd: std::ffi::c_int, timeout: Option<std::time::Duration>) -> std::io::Result<()>;
+
+static WAIT_HOOK: std::sync::Mutex<Option<WaitHook>> = std::sync::Mutex::new(None);
+
+/// Install (or remove) the wait interceptor.
+pub fn set_wait_hook(hook: Option<WaitHook>) {
+    *WAIT_HOOK.lock().expect("verif wait hook poisoned") = hook;
+}
+
+/// Called first thing by `EventLoops::wait_*`: `Some(result)` if an interceptor is installed.
+#[must_use]
+pub fn intercept_wait(
+    kind: WaitKind,
+    fd: std::ffi::c_int,
+    timeout: Option<std::time::Duration>,
+) -> Option<std::io::Result<()>> {
+    let hook = *WAIT_HOOK.lock().expect("verif wait hook poisoned");
+    hook.map(|f| f(kind, fd, timeout))
+}
